@@ -137,7 +137,7 @@ def gen_schedules(rng, tier, kinds=('bsp', 'blp'), flush=True, shut=True):
         adds = rng.randrange(1, 5)
         fl = ''
         if flush:
-            fl = ''.join(rng.choice('iii12') for _ in range(rng.choice([0, 1, 1, 2])))
+            fl = ''.join(rng.choice('iii120') for _ in range(rng.choice([0, 1, 1, 2])))
         nshut = rng.choice([0, 1, 1, 2]) if shut else 0
         xs = rng.choice(['s', 's', 'sf', 'f', 'sF', 'sS', 'sfFS'])
         nth = 1 + nprod + len(fl) + nshut
